@@ -57,6 +57,9 @@ func verifKeyOrderRV(site string, k reflect.Value) {
 
 func verifYield(site string) { verifEmit("yield", site, "", 0, 0) }
 
+// verifDeps reports the number of references a value just evaluated depends on.
+func verifDeps(site string, n int) { verifEmit("deps", site, "", n, 0) }
+
 // VerifNode describes one node of a Config tree as it is stored, without
 // evaluating anything.
 type VerifNode struct {
